@@ -122,8 +122,36 @@ pub fn install_panic_hook() {
     std::panic::set_hook(Box::new(|info| {
         if GUARD_DEPTH.with(|d| d.get()) == 0 {
             eprintln!("harness panic: {info}");
+        } else {
+            // remember where the library panicked (file, not line: stable across unrelated edits) and why
+            let file = info.location().map(|l| {
+                let f = l.file();
+                let f = f.rsplit("statime/src/").next().unwrap_or(f);
+                // registry crates: keep `<crate>-<version>/src/...`
+                match f.rfind("/src/") {
+                    Some(i) if f.starts_with('/') => f[..i].rsplit('/').next().unwrap_or("").to_string() + &f[i..],
+                    _ => f.to_string(),
+                }
+            }).unwrap_or_default();
+            let msg = if let Some(s) = info.payload().downcast_ref::<&str>() {
+                s.to_string()
+            } else if let Some(s) = info.payload().downcast_ref::<String>() {
+                s.clone()
+            } else {
+                "panic".to_string()
+            };
+            let short: String = msg.split(':').next().unwrap_or("").chars().take(60).collect();
+            LAST_PANIC.with(|p| *p.borrow_mut() = format!("{file}: {short}"));
         }
     }));
+}
+
+thread_local! {
+    pub static LAST_PANIC: std::cell::RefCell<String> = const { std::cell::RefCell::new(String::new()) };
+}
+
+pub fn last_panic() -> String {
+    LAST_PANIC.with(|p| p.borrow().clone())
 }
 
 pub fn guarded<T>(f: impl FnOnce() -> T) -> Result<T, String> {
